@@ -388,3 +388,93 @@ def bindings(draw):
         'ns2': draw(st.lists(st.integers(0, 60), max_size=3)),
         'ns3': draw(st.sampled_from([None, None, []])),   # None = alias of ns1 (the same XObject bound twice)
     }
+
+
+# ---------------------------------------------------------------------------------------------------------
+# C11: expressions with a chosen top-level operation (every op code of XPath::executeMore as the root)
+TOP_OPS = ['or', 'and', 'eq', 'ne', 'lt', 'le', 'gt', 'ge', 'plus', 'minus', 'mult', 'div', 'mod', 'neg', 'union', 'literal', 'variable-n',
+           'variable-s', 'variable-b', 'variable-ns', 'group', 'numberlit', 'path', 'abs-path', 'filter', 'fn:last', 'fn:position', 'fn:count',
+           'fn:id', 'fn:local-name', 'fn:namespace-uri', 'fn:name', 'fn:string', 'fn:concat', 'fn:starts-with', 'fn:contains',
+           'fn:substring-before', 'fn:substring-after', 'fn:substring', 'fn:string-length', 'fn:normalize-space', 'fn:translate',
+           'fn:boolean', 'fn:not', 'fn:true', 'fn:false', 'fn:lang', 'fn:number', 'fn:sum', 'fn:floor', 'fn:ceiling', 'fn:round',
+           'fn:string0', 'fn:number0', 'fn:name0', 'fn:local-name0', 'fn:namespace-uri0', 'fn:string-length0', 'fn:normalize-space0', 'ext']
+
+
+@st.composite
+def top_expression(draw, op, d=2):
+    A = lambda: draw(anyexpr(d - 1))
+    N = lambda: draw(number(d - 1))
+    S = lambda: draw(string(d - 1))
+    B = lambda: draw(boolean(d - 1))
+    NS = lambda: draw(nodeset(d - 1))
+    binop = {'or': 'or', 'and': 'and', 'eq': '=', 'ne': '!=', 'lt': '<', 'le': '<=', 'gt': '>', 'ge': '>=',
+             'plus': '+', 'minus': '-', 'mult': '*', 'div': 'div', 'mod': 'mod'}
+    if op in ('or', 'and'):
+        toks = B() + [binop[op]] + B()
+    elif op in ('eq', 'ne', 'lt', 'le', 'gt', 'ge'):
+        toks = A() + [binop[op]] + A()
+    elif op in ('plus', 'minus', 'mult', 'div', 'mod'):
+        a, b = draw(st.one_of(number(d - 1), anyexpr(d - 1))), draw(st.one_of(number(d - 1), anyexpr(d - 1)))
+        toks = ['('] + a + [')', binop[op], '('] + b + [')']
+    elif op == 'neg':
+        toks = ['-', '('] + A() + [')']
+    elif op == 'union':
+        toks = NS() + ['|'] + NS()
+    elif op == 'literal':
+        toks = [draw(st.sampled_from(STR_LITS))]
+    elif op.startswith('variable-'):
+        toks = ['$' + draw(st.sampled_from([v for v, t in VARS.items() if t == op.split('-')[1]]))]
+    elif op == 'group':
+        toks = ['('] + A() + [')']
+    elif op == 'numberlit':
+        toks = [draw(st.sampled_from(NUM_LITS[:-2]))]
+    elif op == 'path':
+        toks = draw(path(d))
+        if toks and toks[0] in ('/', '//'):
+            toks = toks[1:] or ['.']
+    elif op == 'abs-path':
+        toks = [draw(st.sampled_from(['/', '//']))] + draw(step(d))
+    elif op == 'filter':
+        toks = ['('] + NS() + [')'] + draw(predicate(d - 1))
+    elif op == 'ext':
+        toks = draw(st.sampled_from([['set:distinct', '('] + NS() + [')'], ['math:max', '('] + NS() + [')'], ['str:concat', '('] + NS() + [')'],
+                                     ['set:difference', '('] + NS() + [','] + NS() + [')'], ['exsl:object-type', '('] + A() + [')'],
+                                     ['math:abs', '('] + N() + [')']]))
+    else:
+        fn = op[3:]
+        zero = fn.endswith('0')
+        fn = fn.rstrip('0')
+        if zero or fn in ('last', 'position', 'true', 'false'):
+            args = []
+        elif fn in ('count', 'sum'):
+            args = [NS()]
+        elif fn == 'id':
+            args = [draw(st.one_of(st.sampled_from([["'k1'"], ["'k2 k1'"], ['//@i']]), string(d - 1)))]
+        elif fn in ('local-name', 'namespace-uri', 'name'):
+            args = [NS()]
+        elif fn in ('string', 'boolean', 'number'):
+            args = [A()]
+        elif fn == 'not':
+            args = [draw(st.one_of(boolean(d - 1), anyexpr(d - 1)))]
+        elif fn == 'concat':
+            args = [A(), A()] + ([A()] if draw(st.booleans()) else [])
+        elif fn in ('starts-with', 'contains', 'substring-before', 'substring-after'):
+            args = [A(), A()]
+        elif fn == 'substring':
+            args = [A(), N()] + ([N()] if draw(st.booleans()) else [])
+        elif fn in ('string-length', 'normalize-space'):
+            args = [A()]
+        elif fn == 'translate':
+            args = [A(), S(), S()]
+        elif fn == 'lang':
+            args = [draw(st.one_of(st.sampled_from([["'en'"], ["'fr'"]]), string(d - 1)))]
+        else:  # floor ceiling round
+            args = [A()]
+        toks = [fn, '(']
+        for i, a in enumerate(args):
+            if i:
+                toks.append(',')
+            toks += a
+        toks.append(')')
+    toks = fix_bare_slash(toks)
+    return {'kind': 'top:' + op, 'expr': render(toks, [' ']), 'ntok': len(toks), 'op': op}
